@@ -78,7 +78,13 @@ func Int(lo, hi int64) Ty                    { return Ty{K: "int", Lo: lo, Hi: h
 func Flt(lo, hi float64) Ty                  { return Ty{K: "flt", FLo: lo, FHi: hi} }
 func Bool(b int) Ty                          { return Ty{K: "bool", B: b} }
 func Tspan(lo, hi int64) Ty                  { return Ty{K: "tspan", Lo: lo, Hi: hi} }
-func StrSz(lo, hi int64) Ty                  { return Ty{K: "strsz", Lo: lo, Hi: hi} }
+// StrSz builds String[lo,hi]; String[0,max] IS the default String (NewStringType normalises it), so it is the atom `str`.
+func StrSz(lo, hi int64) Ty {
+	if lo == 0 && hi == MaxI {
+		return Atom("str")
+	}
+	return Ty{K: "strsz", Lo: lo, Hi: hi}
+}
 func StrVal(s string) Ty                     { return Ty{K: "strval", S: []string{s}} }
 func Enum(ci bool, vs ...string) Ty          { return Ty{K: "enum", CI: ci, S: vs} }
 func Pat(srcs ...string) Ty                  { return Ty{K: "pat", S: srcs} }
